@@ -99,7 +99,11 @@ func (e *c03Echo) VarlinkDispatch(ctx context.Context, c varlink.Call, method st
 	case "More":
 		for i, d := range e.seq {
 			c.Continues = i < len(e.seq)-1
-			if err := c.Reply(ctx, json.RawMessage(d)); err != nil {
+			var params interface{} = json.RawMessage(d)
+			if d == "<none>" {
+				params = nil // a reply without a parameters member
+			}
+			if err := c.Reply(ctx, params); err != nil {
 				return err
 			}
 		}
@@ -181,7 +185,7 @@ func c03Body(d c03Desc, tier string) func() {
 			}
 		case "more":
 			// every more-sequence of length 0..3 over a small set of distinct documents
-			pool := []string{`{"i":1}`, `{"n":9007199254740993}`, `{"s":"é\u0000"}`, `{}`}
+			pool := []string{`{"i":1}`, `{"n":9007199254740993}`, `{"s":"é\u0000"}`, `{}`, `<none>`}
 			var seqs [][]string
 			seqs = append(seqs, nil)
 			for _, a := range pool {
@@ -214,7 +218,12 @@ func c03Body(d c03Desc, tier string) func() {
 						fail("more-sequence %v: receive %d failed: %v", sq, i, err)
 						break
 					}
-					if !rawJSONEqual(out, []byte(want)) {
+					if want == "<none>" {
+						// the reply has no parameters member: a fresh out variable must stay untouched
+						if len(out) != 0 && string(out) != "null" {
+							fail("more-sequence %v: reply %d carries no parameters but arrived as %s", sq, i, string(out))
+						}
+					} else if !rawJSONEqual(out, []byte(want)) {
 						fail("more-sequence %v: reply %d arrived as %s", sq, i, string(out))
 					}
 					wantCont := i < len(sq)-1
